@@ -209,9 +209,13 @@ def comparator_table(ctx, rid, comp):
             srcs += [e[k] for k in ('rhs', 'value', 'init') if k in e]
         for s_ in srcs:
             for n in walk(s_):
-                if n.get('k') == 'bin' and n.get('op') in h.CMPOPS + ('-',) and last_member(n['l']) == h.PID and last_member(n['r']) == h.PID:
-                    li = _param_index(v, strip(n['l'])['base'])
-                    ri = _param_index(v, strip(n['r'])['base'])
+                if n.get('k') != 'bin' or n.get('op') not in h.CMPOPS + ('-',):
+                    continue
+                # an operand is "the pid of a node" when it reads X->pid or a local that caches X->pid
+                lb, rb = h.pid_source(v, n['l']), h.pid_source(v, n['r'])
+                if lb is not None and rb is not None:
+                    li = _param_index(v, lb)
+                    ri = _param_index(v, rb)
                     if {li, ri} != {0, 1}:
                         raise AnalysisBroken('%s: a pid comparison does not compare the two argument nodes' % comp.name)
                     if n['op'] == '-':
@@ -242,7 +246,7 @@ def descent(ctx, rid, tree_name):
     n = 0
     for v, reaps in reaper_contexts(prog):
         g = v.g
-        keys = h.key_nodes(g)
+        keys = h.key_nodes(g, v)
         reads = [e for e in g.events() if v.is_lookup_read(e)]
         if not keys or not reads:
             raise AnalysisBroken('reaper: lookup step not found')
